@@ -185,3 +185,93 @@ T('c05-twin-rename', 'C05', [(U, "    type_error_checker = infer.TypeErrorChecke
                               "    checker = infer.TypeErrorChecker(rules)\n    checker.CheckForError('raise')")])
 T('c05-twin-fields-tuple', 'C05', [(INF, "  return ['expression', 'left_hand_side', 'right_hand_side',\n          'condition', 'consequence', 'otherwise']",
                                     "  return ('otherwise', 'expression', 'left_hand_side', 'right_hand_side',\n          'condition', 'consequence')")])
+
+# ---------------------------------------------------------------- C14
+M('c14-edge-after-early-return', 'C14', [(U, """    if edge_needed:
+      self.execution.dependency_edges.append((
+          table,
+          self.execution.workflow_predicates_stack[-1]))
+    if table in self.execution.table_to_defined_table_map:
+      return self.execution.table_to_defined_table_map[table]
+""", """    if table in self.execution.table_to_defined_table_map:
+      return self.execution.table_to_defined_table_map[table]
+    if edge_needed:
+      self.execution.dependency_edges.append((
+          table,
+          self.execution.workflow_predicates_stack[-1]))
+""")], 'C14-R1', 'second reader of a grounded table gets no edge')
+M('c14-edge-reversed', 'C14', [(U, """      self.execution.dependency_edges.append((
+          table,
+          self.execution.workflow_predicates_stack[-1]))""", """      self.execution.dependency_edges.append((
+          self.execution.workflow_predicates_stack[-1],
+          table))""")], 'C14-R1')
+M('c14-no-pop', 'C14', [(U, "      self.execution.workflow_predicates_stack.pop()\n", "")], 'C14-R2')
+M('c14-no-increment', 'C14', [(CO, "    self.action_iterations_complete[one_action] += 1\n", "")], 'C14-R3')
+M('c14-off-by-one', 'C14', [(CO, "    if (self.action_iterations_complete[one_action] >=\n        self.iteration_repetitions",
+                             "    if (self.action_iterations_complete[one_action] >\n        self.iteration_repetitions")], 'C14-R3')
+M('c14-executor-direction', 'C14', [(CO, "      depends_on[target] = depends_on.get(target, set()) | {source}",
+                                     "      depends_on[source] = depends_on.get(source, set()) | {target}")], 'C14-R1')
+M('c14-no-data-edge', 'C14', [(U, """    self.execution.data_dependency_edges.append((
+      table,
+      self.execution.workflow_predicates_stack[-1]))
+""", "")], 'C14-R1')
+M('c14-requeue-all', 'C14', [(CO, """    if one_action not in self.action_iterations_complete:
+      self.complete_actions |= {one_action}
+    else:
+      self.UpdateStateForIterativeAction(one_action)""", """    if one_action not in self.action_iterations_complete:
+      self.complete_actions |= {one_action}
+    self.UpdateStateForIterativeAction(one_action)""")], 'C14-R3')
+M('c14-schedule-unready', 'C14', [(CO, "        if complete >= set(self.action_requires[a]):\n          result.append(a)",
+                                   "        if True:\n          result.append(a)")], 'C14-R2')
+T('c14-twin-rename-loop-vars', 'C14', [(CO, "    for source, target in dependency_edges | data_dependency_edges:\n      depends_on[target] = depends_on.get(target, set()) | {source}",
+                                        "    for src, dst in dependency_edges | data_dependency_edges:\n      depends_on[dst] = depends_on.get(dst, set()) | {src}")])
+T('c14-twin-lt', 'C14', [(CO, """    if (self.action_iterations_complete[one_action] >=
+        self.iteration_repetitions[self.action_iteration[one_action]]):
+      self.complete_actions |= {one_action}
+    elif""", """    if not (self.action_iterations_complete[one_action] <
+            self.iteration_repetitions[self.action_iteration[one_action]]):
+      self.complete_actions |= {one_action}
+    elif""")])
+
+# ---------------------------------------------------------------- C09
+M('c09-subscript-arity', 'C09', [(DI, "    def Subscript(self, record, subscript, record_is_table):\n        return '%s.%s' % (record, subscript)",
+                                  "    def Subscript(self, record, subscript):\n        return '%s.%s' % (record, subscript)")], 'C09-R1')
+M('c09-missing-method', 'C09', [(DI, """  def ArrayPhrase(self):
+    return 'ARRAY[%s]'
+
+  def GroupBySpecBy(self):
+    return 'index'
+
+  def DecorateCombineRule(self, rule, var):
+    return rule
+
+def DecorateCombineRule(rule, var):""", """  def ArrayPhrase(self):
+    return 'ARRAY[%s]'
+
+  def DecorateCombineRule(self, rule, var):
+    return rule
+
+def DecorateCombineRule(rule, var):""")], 'C09-R1', 'Presto loses GroupBySpecBy')
+M('c09-template-brace', 'C09', [(DI, "        'Size': 'JSON_ARRAY_LENGTH({0})',", "        'Size': 'JSON_ARRAY_LENGTH({0)',")], 'C09-R2')
+M('c09-template-named', 'C09', [(DI, "          'Size': 'LEN({0})',", "          'Size': 'LEN({list})',")], 'C09-R2')
+M('c09-infix-three', 'C09', [(DI, "        'in': 'IN_LIST(%s, %s)'", "        'in': 'IN_LIST(%s, %s, %s)'")], 'C09-R2')
+M('c09-percent-raw', 'C09', [(DI, "        '%' : '(%s) %% (%s)',\n        'in': 'IN_LIST(%s, %s)'", "        '%' : '(%s) % (%s)',\n        'in': 'IN_LIST(%s, %s)'")], 'C09-R2')
+M('c09-unused-leak', 'C09', [(ET, "      if call['predicate_name'] == 'TypeRepr':\n        return self.TypeReprLiteral(expression)\n", "")], 'C09-R4')
+M('c09-with-order', 'C09', [(U, """    parent_table = self.execution.workflow_predicates_stack[-1]
+    if table not in self.execution.table_to_defined_table_map:""", """    parent_table = self.execution.workflow_predicates_stack[-1]
+    if table not in self.execution.table_to_with_dependencies[parent_table]:
+      self.execution.table_to_with_dependencies[parent_table].append(table)
+    if table not in self.execution.table_to_defined_table_map:""")], 'C09-R5')
+M('c09-with-reversed', 'C09', [(U, "    for dependency in dependencies:\n      table_name = self.execution.table_to_defined_table_map[dependency]",
+                                "    for dependency in reversed(dependencies):\n      table_name = self.execution.table_to_defined_table_map[dependency]")], 'C09-R5')
+M('c09-indexerror-internal', 'C09', [(ET, """      try:
+        return f.format(*args_list)
+      except IndexError:""", """      try:
+        return f.format(*args_list)
+      except ZeroDivisionError:""")], 'C09-R2')
+M('c09-unnest-three', 'C09', [(DI, "    return 'JSON_EACH({0}) as {1}'", "    return 'JSON_EACH({0}) as {2}'")], 'C09-R2')
+T('c09-twin-dead-entry', 'C09', [(DI, "        'Set': 'DistinctListAgg({0})',", "        'Set': 'DistinctListAgg({0})',\n        'IsNullish': '({0} IS NULL)',")], 'entry unreachable through the generic loop (not a BasisFunction): information only')
+T('c09-twin-format-style', 'C09', [(DI, "        'ToString': 'CAST(%s AS TEXT)',\n        'DateAddDay': \"DATE({0}, {1} || ' days')\",\n        'DateDiffDay': \"CAST(JULIANDAY({0}) - JULIANDAY({1}) AS INT64)\"\n    }\n\n  def DecorateCombineRule",
+                                    "        'ToString': 'CAST({0} AS TEXT)',\n        'DateAddDay': \"DATE({0}, {1} || ' days')\",\n        'DateDiffDay': \"CAST(JULIANDAY({0}) - JULIANDAY({1}) AS INT64)\"\n    }\n\n  def DecorateCombineRule")])
+T('c09-twin-kw-call', 'C09', [(ET, "    return self.dialect.Subscript(record, subscript, record_is_table)",
+                               "    return self.dialect.Subscript(record, subscript, record_is_table=record_is_table)")])
